@@ -1,0 +1,177 @@
+//go:build verif
+
+// Contracts for govc (/verif): C26 "Node work is credited exactly once per snapshot" (storage/badger_work.go).
+// Comment-only file. T-KV vocabulary and key-space conventions: zz_contracts_c03_verif.go; iterator model: /verif/govc/trusted/badger.spec.
+
+package storage
+
+//@ -- ═════════ key space of the work records (snapshots DB) ═════════
+//@ --   WORKCHECKPOINT | node                     the offset checkpoint: be64(round) | hash | hash | ...   (the snapshots already credited for `round`)
+//@ --   WORKPROPOSE | node | be32(day)            proposal ("lead") credits of a node for a day, be64
+//@ --   WORKVOTE | node | be32(day)               signing credits, be64
+//@ --   WORKSNAPSHOT | node | be64(round) | be64(ts)   per-snapshot work records of the running round (60 bytes)
+//@ -- ASSUMED like the key space of zz_contracts_c03_verif.go: the four prefixes share "WORK" and differ at byte 4 ('C', 'P', 'V', 'S'), the
+//@ -- payloads have fixed widths: the constructors are injective with disjoint ranges (kind numbers: zz_contracts_keyspace_verif.go), and a
+//@ -- key that starts with the first 52 bytes of a WORKSNAPSHOT key (prefix | node | round) is a WORKSNAPSHOT key.
+//@ -- (OffKeyId kind 21, LeadKeyId kind 22, SignKeyId kind 23, WorkSnapKeyId kind 11 with its 52-byte prefix facts, and the four key constructors:
+//@ -- zz_contracts_keyspace_verif.go)
+
+//@ -- ═════════ counters: 8-byte big-endian values (Be64Val / Be64Dec: /verif/govc/trusted/c20.spec), an absent counter is 0 ═════════
+//@ spec Cnt(t badger.Txn, k mathint) mathint = badger.kvget(t, k) == 0 ? 0 : Be64Dec(badger.kvget(t, k))
+//@ spec DbCnt(d badger.DB, k mathint) mathint = badger.dbget(d, k) == 0 ? 0 : Be64Dec(badger.dbget(d, k))
+//@ -- CountersOK: every stored lead/sign counter and checkpoint is at least... counters are exactly 8 bytes (graphWriteUint64 writes nothing else)
+//@ spec CountersOK(t badger.Txn) bool = forall k mathint :: {badger.kvget(t, k)} (keykind(k) == 23 || keykind(k) == 22) && badger.kvget(t, k) != 0 ==> badger.vallen(badger.kvget(t, k)) == 8
+//@ spec DbCountersOK(d badger.DB) bool = forall k mathint :: {badger.dbget(d, k)} (keykind(k) == 23 || keykind(k) == 22) && badger.dbget(d, k) != 0 ==> badger.vallen(badger.dbget(d, k)) == 8
+
+//@ func graphReadUint64
+//@   property C26
+//@   requires txn != nil
+//@   requires [width] badger.kvget(*txn, kvkey(key)) != 0 ==> badger.vallen(badger.kvget(*txn, kvkey(key))) == 8
+//@   modifies nothing
+//@   ensures [value] err == nil ==> result0 == Cnt(*txn, kvkey(key))
+
+//@ func graphWriteUint64
+//@   property C26
+//@   requires txn != nil
+//@   modifies *txn
+//@   ensures [refused] err != nil ==> *txn == old(*txn)
+//@   ensures [written] err == nil ==> Cnt(*txn, kvkey(key)) == val && badger.kvget(*txn, kvkey(key)) != 0 && badger.vallen(badger.kvget(*txn, kvkey(key))) == 8
+//@   ensures [frame] forall k mathint :: {badger.kvget(*txn, k)} k != kvkey(key) ==> badger.kvget(*txn, k) == old(badger.kvget(*txn, k))
+
+//@ -- ═════════ the offset checkpoint: be64(round) followed by the hashes of the snapshots already credited for that round ═════════
+//@ -- CkRound / CkHas decode a checkpoint value. The codec pair graphWriteWorkOffset / graphReadWorkOffset (two byte-level loops) is ASSUMED:
+//@ -- the writer stores exactly (val, {s.Hash : s in snapshots}), the reader returns the stored round and the stored set as a fresh map
+//@ -- (nil map and round 0 when there is no checkpoint).
+//@ uninterp CkRound(v mathint) mathint
+//@ uninterp CkHas(v mathint, h crypto.Hash) bool
+//@ spec Seen(v mathint, h crypto.Hash) bool = v != 0 && CkHas(v, h)
+//@ spec InSet(m map[crypto.Hash]bool, h crypto.Hash) bool = m != nil && has(m, h) && m[h]
+//@ spec WorksOK(ss []*common.SnapshotWork) bool = forall i int :: {ss[i]} 0 <= i && i < len(ss) ==> ss[i] != nil && !fresh(ss[i])
+//@ assume func graphReadWorkOffset
+//@   requires txn != nil
+//@   modifies nothing
+//@   ensures [absent] err == nil && badger.kvget(*txn, kvkey(key)) == 0 ==> result0 == 0 && result1 == nil
+//@   ensures [present] err == nil && badger.kvget(*txn, kvkey(key)) != 0 ==> result0 == CkRound(badger.kvget(*txn, kvkey(key))) && result1 != nil && fresh(result1)
+//@   ensures [set] err == nil ==> forall h crypto.Hash :: {has(result1, h)} {CkHas(badger.kvget(*txn, kvkey(key)), h)} InSet(result1, h) <==> Seen(badger.kvget(*txn, kvkey(key)), h)
+//@   ensures [not-notfound] err != badger.ErrKeyNotFound
+//@ assume func graphWriteWorkOffset
+//@   requires txn != nil && WorksOK(snapshots)
+//@   modifies *txn
+//@   ensures [refused] err != nil ==> *txn == old(*txn)
+//@   ensures [frame] forall k mathint :: {badger.kvget(*txn, k)} k != kvkey(key) ==> badger.kvget(*txn, k) == old(badger.kvget(*txn, k))
+//@   ensures [written] err == nil ==> badger.kvget(*txn, kvkey(key)) != 0 && CkRound(badger.kvget(*txn, kvkey(key))) == val &&
+//@       forall h crypto.Hash :: {CkHas(badger.kvget(*txn, kvkey(key)), h)} CkHas(badger.kvget(*txn, kvkey(key)), h) <==> (exists i int :: {snapshots[i]} 0 <= i && i < len(snapshots) && snapshots[i].Hash == h)
+
+//@ -- removeSnapshotWorksForRound: housekeeping when a round is completed -- deletes per-snapshot work records (keys under
+//@ -- WORKSNAPSHOT | node | round) through an iterator; no counter and no checkpoint is touched.
+//@ func removeSnapshotWorksForRound
+//@   property C26
+//@   requires txn != nil
+//@   modifies *txn
+//@   ensures [only-snap-records] forall k mathint :: {badger.kvget(*txn, k)} badger.kvget(*txn, k) == old(badger.kvget(*txn, k)) || (badger.kvget(*txn, k) == 0 && keykind(k) == 11)
+//@   loop 0 invariant [only-snap-records] forall k mathint :: {badger.kvget(*txn, k)} badger.kvget(*txn, k) == old(badger.kvget(*txn, k)) || (badger.kvget(*txn, k) == 0 && keykind(k) == 11)
+//@   loop 0 invariant [cursor] badger.itkey(*it) != 0 ==> keykind(badger.itkey(*it)) == 11
+
+//@ -- ═════════ crediting a round ═════════
+//@ spec CkVal(t badger.Txn, n crypto.Hash) mathint = badger.kvget(t, OffKeyId(kvval(n)))
+//@ spec OffOf(v mathint) mathint = v == 0 ? 0 : CkRound(v)
+//@ spec DayOf(ts mathint) mathint = (ts / DAY_U64) % 4294967296
+//@ -- CountFresh(ss, v, n): how many of ss[0..n) are NOT in the set recorded by the checkpoint value v
+//@ rec CountFresh(ss []*common.SnapshotWork, v mathint, n int) mathint = n <= 0 ? 0 : CountFresh(ss, v, n - 1) + (Seen(v, ss[n-1].Hash) ? 0 : 1)
+//@ recframe CountFresh
+//@ reclimit CountFresh
+//@ -- NFresh: the number of snapshots this call credits: on a re-submission of the checkpointed round (round == off) those not yet recorded,
+//@ -- on the next round (round == off + 1) all of them
+//@ spec NFresh(ss []*common.SnapshotWork, v mathint, round mathint) mathint = round == OffOf(v) ? CountFresh(ss, v, len(ss)) : len(ss)
+//@ -- IsFreshIdx(ss, v, round, i): snapshot i is credited by this call
+//@ spec IsFreshIdx(ss []*common.SnapshotWork, v mathint, round mathint, i int) bool = 0 <= i && i < len(ss) && (round != OffOf(v) || !Seen(v, ss[i].Hash))
+//@ spec SignersOK(ss []*common.SnapshotWork) bool = forall i int :: {ss[i]} 0 <= i && i < len(ss) ==> len(ss[i].Signers) > 0
+//@ spec OneDay(ss []*common.SnapshotWork) bool = forall i int :: {ss[i]} 0 <= i && i < len(ss) ==> DayOf(ss[i].Timestamp) == DayOf(ss[0].Timestamp)
+
+//@ -- The closure of WriteRoundWork (one badger Update). With V = the checkpoint value before the call, off = its round (0 when absent):
+//@ --   [stale]       off > round: nothing changes
+//@ --   [checkpoint]  otherwise (round == off or off + 1, anything else panics) the checkpoint becomes (round, hashes(snapshots))
+//@ --   [lead]        with credit, the proposer's lead counter of the round's day grows by NFresh -- on a re-submission only the snapshots NOT in
+//@ --                 the recorded set count ("never double-counts")
+//@ --   [no-credit]   without credit, or when nothing is fresh, no counter changes
+//@ --   [frame]       nothing but the checkpoint, lead/sign counters and (round change) per-snapshot work records is written
+//@ -- maypanic: the explicit panics are the documented rejections (round gap, recorded snapshot missing from the re-submission, zero
+//@ -- timestamp/hash, day mismatch, proposer not a signer of each of its snapshots).
+//@ func (s *BadgerStore) WriteRoundWork$1
+//@   property C26
+//@   maypanic
+//@   requires txn != nil && iscell(txn) && CountersOK(*txn) && WorksOK(snapshots) && !fresh(snapshots)
+//@   requires [one-day] OneDay(snapshots) -- a round's snapshots fall on one day: kernel (*CacheRound).validateSnapshot rejects anything else (C19)
+//@   requires [no-overflow] len(snapshots) > 0 ==> Cnt(*txn, LeadKeyId(kvval(nodeId), DayOf(snapshots[0].Timestamp))) + NFresh(snapshots, CkVal(*txn, nodeId), round) < 18446744073709551616 -- a counter does not wrap
+//@   modifies *txn
+//@   ensures [stale] OffOf(old(CkVal(*txn, nodeId))) > round ==> *txn == old(*txn)
+//@   ensures [checkpoint] err == nil && OffOf(old(CkVal(*txn, nodeId))) <= round ==> CkVal(*txn, nodeId) != 0 && CkRound(CkVal(*txn, nodeId)) == round &&
+//@       forall h crypto.Hash :: {CkHas(CkVal(*txn, nodeId), h)} CkHas(CkVal(*txn, nodeId), h) <==> (exists i int :: {snapshots[i]} 0 <= i && i < len(snapshots) && snapshots[i].Hash == h)
+//@   ensures [frame] forall k mathint :: {badger.kvget(*txn, k)} (keykind(k) != 21 && keykind(k) != 23 && keykind(k) != 22 && keykind(k) != 11) || (keykind(k) == 21 && k != OffKeyId(kvval(nodeId))) ==>
+//@       badger.kvget(*txn, k) == old(badger.kvget(*txn, k))
+//@   ensures [no-credit] !credit || NFresh(snapshots, old(CkVal(*txn, nodeId)), round) == 0 ==> forall k mathint :: {badger.kvget(*txn, k)} keykind(k) == 23 || keykind(k) == 22 ==> badger.kvget(*txn, k) == old(badger.kvget(*txn, k))
+//@   ensures [lead] err == nil && credit && SignersOK(snapshots) && OffOf(old(CkVal(*txn, nodeId))) <= round && NFresh(snapshots, old(CkVal(*txn, nodeId)), round) > 0 ==>
+//@       Cnt(*txn, LeadKeyId(kvval(nodeId), DayOf(snapshots[0].Timestamp))) == old(Cnt(*txn, LeadKeyId(kvval(nodeId), DayOf(snapshots[0].Timestamp)))) + NFresh(snapshots, old(CkVal(*txn, nodeId)), round)
+//@   ensures [sign-only-fresh] err == nil ==> forall k mathint :: {badger.kvget(*txn, k)} keykind(k) == 23 && badger.kvget(*txn, k) != old(badger.kvget(*txn, k)) ==>
+//@       keynum(k) == DayOf(snapshots[0].Timestamp) && exists i, j int :: {snapshots[i].Signers[j]} IsFreshIdx(snapshots, old(CkVal(*txn, nodeId)), round, i) && 0 <= j && j < len(snapshots[i].Signers) && kvval(snapshots[i].Signers[j]) == keyhid(k)
+//@   ensures [lead-frame] forall k mathint :: {badger.kvget(*txn, k)} keykind(k) == 22 && (len(snapshots) == 0 || k != LeadKeyId(kvval(nodeId), DayOf(snapshots[0].Timestamp))) ==> badger.kvget(*txn, k) == old(badger.kvget(*txn, k))
+//@   loop 0 invariant [set] forall h crypto.Hash :: {has(osm, h)} {CkHas(CkVal(*txn, nodeId), h)} InSet(osm, h) <==> Seen(CkVal(*txn, nodeId), h)
+//@   loop 0 invariant [works] WorksOK(snapshots)
+//@   loop 0 invariant [unfold] CountFresh(snapshots, CkVal(*txn, nodeId), rangeindex + 1) == CountFresh(snapshots, CkVal(*txn, nodeId), rangeindex) + (rangeindex >= 0 && !Seen(CkVal(*txn, nodeId), snapshots[rangeindex].Hash) ? 1 : 0)
+//@   loop 0 invariant [count] len(fresh) == CountFresh(snapshots, CkVal(*txn, nodeId), rangeindex + 1) && (cap(fresh) == 0 || fresh(fresh)) && filter != nil && filter != osm
+//@   loop 0 invariant [elems] forall m int :: {fresh[m]} 0 <= m && m < len(fresh) ==> exists j int :: {snapshots[j]} 0 <= j && j <= rangeindex && fresh[m] == snapshots[j] && !Seen(CkVal(*txn, nodeId), snapshots[j].Hash)
+//@   hint at "for id := range osm {" [count-done] len(fresh) == CountFresh(snapshots, CkVal(*txn, nodeId), len(snapshots))
+//@   hint at "err = graphWriteWorkOffset(txn, offKey, round, snapshots)" [off] off == OffOf(old(CkVal(*txn, nodeId)))
+//@   hint at "err = graphWriteWorkOffset(txn, offKey, round, snapshots)" [n-fresh-same] round == off ==> len(fresh) == CountFresh(snapshots, old(CkVal(*txn, nodeId)), len(snapshots))
+//@   hint at "err = graphWriteWorkOffset(txn, offKey, round, snapshots)" [n-fresh-next] round != off ==> len(fresh) == len(snapshots)
+//@   hint at "err = graphWriteWorkOffset(txn, offKey, round, snapshots)" [fresh-elems] forall m int :: {fresh[m]} 0 <= m && m < len(fresh) ==> exists j int :: {snapshots[j]} IsFreshIdx(snapshots, old(CkVal(*txn, nodeId)), round, j) && fresh[m] == snapshots[j]
+//@   hint at "err = graphWriteWorkOffset(txn, offKey, round, snapshots)" [only-snap] forall k mathint :: {badger.kvget(*txn, k)} keykind(k) != 11 ==> badger.kvget(*txn, k) == old(badger.kvget(*txn, k))
+//@   hint at "for ni, wn := range wm {" [day] day == DayOf(snapshots[0].Timestamp) && len(snapshots) > 0
+//@   hint at "for ni, wn := range wm {" [own-count] wm != nil && has(wm, nodeId) ==> wm[nodeId] == NFresh(snapshots, old(CkVal(*txn, nodeId)), round)
+//@   -- every key of the per-signer tally wm is a signer of a FRESH snapshot
+//@   loop 2 invariant [keys] forall h crypto.Hash :: {has(wm, h)} has(wm, h) ==> exists m, j int :: {fresh[m].Signers[j]} 0 <= m && m <= rangeindex && 0 <= j && j < len(fresh[m].Signers) && fresh[m].Signers[j] == h
+//@   loop 3 invariant [keys] forall h crypto.Hash :: {has(wm, h)} has(wm, h) ==> exists m, j int :: {fresh[m].Signers[j]} 0 <= m && 0 <= j && j < len(fresh[m].Signers) && fresh[m].Signers[j] == h &&
+//@       (m <= rangeindex_2 || (m == rangeindex_2 + 1 && j <= rangeindex))
+//@   -- a sign counter changes only for a key of wm, on the round's day
+//@   loop 4 invariant [sign-written] forall k mathint :: {badger.kvget(*txn, k)} keykind(k) == 23 && badger.kvget(*txn, k) != old(badger.kvget(*txn, k)) ==> exists ni crypto.Hash :: {has(wm, ni)} has(wm, ni) && k == SignKeyId(kvval(ni), day)
+//@   loop 4 invariant [ck] CkVal(*txn, nodeId) != 0 && CkRound(CkVal(*txn, nodeId)) == round &&
+//@       forall h crypto.Hash :: {CkHas(CkVal(*txn, nodeId), h)} CkHas(CkVal(*txn, nodeId), h) <==> (exists i int :: {snapshots[i]} 0 <= i && i < len(snapshots) && snapshots[i].Hash == h)
+//@   loop 4 invariant [frame4] forall k mathint :: {badger.kvget(*txn, k)} keykind(k) != 23 && keykind(k) != 11 && k != OffKeyId(kvval(nodeId)) ==> badger.kvget(*txn, k) == old(badger.kvget(*txn, k))
+//@   loop 4 invariant [counters] CountersOK(*txn)
+
+//@ -- ═════════ the public operation: ONE badger Update around the closure; its clauses over the committed state ═════════
+//@ -- "However often a round's work is re-submitted with the same or a growing set of snapshots ... never double-counts": after a successful
+//@ -- call the checkpoint is (round, hashes(snapshots)) ([checkpoint]); a later call for the SAME round credits NFresh = the number of
+//@ -- snapshots whose hash is not in that recorded set ([lead]: CountFresh) -- 0 for the same set, exactly the new ones for a growing set --
+//@ -- and gives signing credit only to signers of those new snapshots ([sign-only-fresh]); a call for an older round changes nothing ([stale]).
+//@ spec DbCkVal(d badger.DB, n crypto.Hash) mathint = badger.dbget(d, OffKeyId(kvval(n)))
+//@ func (s *BadgerStore) WriteRoundWork
+//@   property C26
+//@   maypanic
+//@   requires s != nil && s.snapshotsDB != nil && DbCountersOK(*s.snapshotsDB) && WorksOK(snapshots)
+//@   requires [one-day] OneDay(snapshots)
+//@   requires [no-overflow] len(snapshots) > 0 ==> DbCnt(*s.snapshotsDB, LeadKeyId(kvval(nodeId), DayOf(snapshots[0].Timestamp))) + NFresh(snapshots, DbCkVal(*s.snapshotsDB, nodeId), round) < 18446744073709551616
+//@   modifies *s.snapshotsDB
+//@   ensures [atomic] err != nil ==> *s.snapshotsDB == old(*s.snapshotsDB)
+//@   ensures [stale] OffOf(old(DbCkVal(*s.snapshotsDB, nodeId))) > round ==> forall k mathint :: {badger.dbget(*s.snapshotsDB, k)} badger.dbget(*s.snapshotsDB, k) == old(badger.dbget(*s.snapshotsDB, k))
+//@   ensures [checkpoint] err == nil && OffOf(old(DbCkVal(*s.snapshotsDB, nodeId))) <= round ==> DbCkVal(*s.snapshotsDB, nodeId) != 0 && CkRound(DbCkVal(*s.snapshotsDB, nodeId)) == round &&
+//@       forall h crypto.Hash :: {CkHas(DbCkVal(*s.snapshotsDB, nodeId), h)} CkHas(DbCkVal(*s.snapshotsDB, nodeId), h) <==> (exists i int :: {snapshots[i]} 0 <= i && i < len(snapshots) && snapshots[i].Hash == h)
+//@   ensures [frame] forall k mathint :: {badger.dbget(*s.snapshotsDB, k)} (keykind(k) != 21 && keykind(k) != 23 && keykind(k) != 22 && keykind(k) != 11) || (keykind(k) == 21 && k != OffKeyId(kvval(nodeId))) ==>
+//@       badger.dbget(*s.snapshotsDB, k) == old(badger.dbget(*s.snapshotsDB, k))
+//@   ensures [no-credit] !credit || NFresh(snapshots, old(DbCkVal(*s.snapshotsDB, nodeId)), round) == 0 ==> forall k mathint :: {badger.dbget(*s.snapshotsDB, k)} keykind(k) == 23 || keykind(k) == 22 ==> badger.dbget(*s.snapshotsDB, k) == old(badger.dbget(*s.snapshotsDB, k))
+//@   ensures [lead] err == nil && credit && SignersOK(snapshots) && OffOf(old(DbCkVal(*s.snapshotsDB, nodeId))) <= round && NFresh(snapshots, old(DbCkVal(*s.snapshotsDB, nodeId)), round) > 0 ==>
+//@       DbCnt(*s.snapshotsDB, LeadKeyId(kvval(nodeId), DayOf(snapshots[0].Timestamp))) == old(DbCnt(*s.snapshotsDB, LeadKeyId(kvval(nodeId), DayOf(snapshots[0].Timestamp)))) + NFresh(snapshots, old(DbCkVal(*s.snapshotsDB, nodeId)), round)
+//@   ensures [lead-frame] forall k mathint :: {badger.dbget(*s.snapshotsDB, k)} keykind(k) == 22 && (len(snapshots) == 0 || k != LeadKeyId(kvval(nodeId), DayOf(snapshots[0].Timestamp))) ==> badger.dbget(*s.snapshotsDB, k) == old(badger.dbget(*s.snapshotsDB, k))
+//@   ensures [sign-only-fresh] forall k mathint :: {badger.dbget(*s.snapshotsDB, k)} keykind(k) == 23 && badger.dbget(*s.snapshotsDB, k) != old(badger.dbget(*s.snapshotsDB, k)) ==>
+//@       keynum(k) == DayOf(snapshots[0].Timestamp) && exists i, j int :: {snapshots[i].Signers[j]} IsFreshIdx(snapshots, old(DbCkVal(*s.snapshotsDB, nodeId)), round, i) && 0 <= j && j < len(snapshots[i].Signers) && kvval(snapshots[i].Signers[j]) == keyhid(k)
+
+//@ -- ListNodeWorks (observation point): for every listed node the pair (lead credits, signing credits) of the day, read from the committed state
+//@ func (s *BadgerStore) ListNodeWorks
+//@   property C26
+//@   requires s != nil && s.snapshotsDB != nil && DbCountersOK(*s.snapshotsDB)
+//@   modifies nothing
+//@   ensures [values] err == nil ==> result0 != nil && forall i int :: {cids[i]} 0 <= i && i < len(cids) ==> has(result0, cids[i]) &&
+//@       result0[cids[i]][0] == DbCnt(*s.snapshotsDB, LeadKeyId(kvval(cids[i]), day)) && result0[cids[i]][1] == DbCnt(*s.snapshotsDB, SignKeyId(kvval(cids[i]), day))
+//@   loop 0 invariant [txn] works != nil && txn != nil && (forall k mathint :: {badger.kvget(*txn, k)} {badger.dbget(*s.snapshotsDB, k)} badger.kvget(*txn, k) == badger.dbget(*s.snapshotsDB, k))
+//@   loop 0 invariant [values] forall i int :: {cids[i]} 0 <= i && i <= rangeindex ==> has(works, cids[i]) &&
+//@       works[cids[i]][0] == DbCnt(*s.snapshotsDB, LeadKeyId(kvval(cids[i]), day)) && works[cids[i]][1] == DbCnt(*s.snapshotsDB, SignKeyId(kvval(cids[i]), day))
